@@ -165,7 +165,8 @@ def sprinkle(rng, A, cplx):
             new = float(round(z.real, 2))
         B = A.copy()
         B[a, b] = new
-        if np.linalg.cond(_numeric(B)) < 1e3:
+        still = any(isinstance(x, pe.CObs if cplx else pe.Obs) for x in B.ravel())       # it stays a matrix of (complex) observables
+        if still and np.linalg.cond(_numeric(B)) < 1e3:
             A[a, b] = new
     return A
 
@@ -340,6 +341,9 @@ def cases_for(rng, n, ctx):
                 what = 'jack_matmul'
             else:
                 sub = {2: 'ij,jk->ik', 3: 'ij,jk,kl->il'}[nf]
+                if (i // len(ops)) % 2 == 1:
+                    # the same products with numpy's implicit output (the indices that occur once, in alphabetical order)
+                    sub = sub.split('->')[0]
                 r = framed([mats], lambda: pe.linalg.einsum(sub, *mats))
                 what = 'einsum ' + sub
             res = {'k': 'exc', 't': type(r).__name__} if isinstance(r, Exception) else {'k': 'ok', 'm': pm(r, pool)}
